@@ -152,24 +152,11 @@ def run(ctx):
             oob.append(i)
         if 'nofuel' in a:
             res.disagree({'what': 'the model ran out of fuel (C11_terminates / C11_parse_in_bounds say it cannot)', 'input': [inp(i)], 'model': a})
-    # ---- KF-UTF8-TRUNC: the model left a string through uc_len / uc_dec and the input is not valid UTF-8
-    shown = 0
+    # ---- the model never leaves a string (C11_parse_in_bounds / C11_exec_no_oob); if it does, say so
     for i in oob:
-        k, f, n, p, c = reqs[i]
-        a = mans[i]
-        sites = set(w.split('=')[1] for w in a.replace('|', ' ').split() if w.startswith('site='))
-        bad8 = any(not relib.valid_utf8(x) for x in p) or any(not relib.valid_utf8(l) for _, l in c)
-        if sites <= {'uclen', 'ucdec'} and bad8:
-            res.count('invalid UTF-8 input on which the model reads past a terminator')
-            if shown < 4:
-                shown += 1
-                out, rc, err = relib.run_batch(probe_asan, [lines[i]], 60, env)
-                if rc not in (0, None) and 'AddressSanitizer' in (err or ''):
-                    res.violation({'what': 'a multi-byte lead byte with a truncated sequence makes uc_len/uc_dec of regex.c read past the terminator',
-                                   'input': [inp(i)], 'observed': err[:700]}, kf='KF-UTF8-TRUNC')
-        else:
-            res.violation({'what': 'the model reads or steps past a terminator on an input that is valid UTF-8 (sites %s)' % sorted(sites),
-                           'input': [inp(i)], 'model': a, 'expected': 'no access beyond the terminator'})
+        res.violation({'what': 'the model reads or steps past a terminator on this input', 'input': [inp(i)], 'model': mans[i],
+                       'expected': 'no access beyond the terminator'})
+        skip.discard(i)
     # ---- the implementation, plain and sanitized
     idx = [i for i in range(len(lines)) if i not in skip]
     sub = [lines[i] for i in idx]
@@ -239,9 +226,29 @@ def run(ctx):
         out, rc, err = relib.run_batch(probe, [kf], 60, env)
         if out and 'timeout' in out[0]:
             res.violation({'what': '(a*)*b on aaaa: exponential time (nullable loop body)', 'input': [{'pats': [hx(b'(a*)*b')], 'line': hx(b'aaaa')}]}, kf='KF-EMPTY-LOOP')
-        if not ctx.quick:
-            big = req(0, 2, [b'((((a{128}){128}){128}){128})'], [(0, b'a')])
-            out, rc, err = relib.run_batch(probe, [big], 300, {'PROBE_RE_MAXRES': '100000000000000'})
-            if rc not in (0, None):
-                res.violation({'what': 'rnode_count overflows int for nested counted repetitions: reservation too small, heap overflow in re_insert',
-                               'input': [{'pats': [hx(b'((((a{128}){128}){128}){128})')]}], 'observed': 'rc=%s' % rc}, kf='KF-REP-OVERFLOW')
+        # the instruction limit NINST: reservations just below and above it, compiled for real (no "big" shortcut)
+        lim = [b'(((a{128}){2}){2}){126}', b'(((a{128}){2}){2}){127}', b'(((a{128}){2}){2}){126,}', b'((((a{128}){128}){128}){128})',
+               b'(((((a{128}){128}){128}){128}){128})', b'((a{128}){128}){31}', b'((a{128}){128}){7}', b'((a{128}){128}){8}', b'(a{0}){128}',
+               b'((((a{128}){128}){128}){0})', b'(((a|b){128}){64}){32}']
+        ll = ['C ' + hx(q) for q in lim]
+        e2 = {'PROBE_RE_MAXRES': '100000000'}
+        outs = []
+        for exe in (probe, probe_asan, model):
+            a, inc = relib.run_all(exe, ll, chunk=1, timeout=300, env=e2) if exe else ([None] * len(ll), [])
+            outs.append(a)
+            for (j, rc, err) in inc:
+                res.violation({'what': 'crash or hang while compiling a pattern near the instruction limit (rc=%s)' % rc,
+                               'input': [{'pats': [hx(lim[j])]}], 'observed': (err or '')[-800:]})
+        for j, q in enumerate(lim):
+            res.evaluations += 1
+            res.count('instruction-limit patterns')
+            a = outs[0][j]
+            if a is None:
+                continue
+            d = parse_answer(a)
+            if d['status'] == 'ok' and int(d['n']) > int(d['res']):
+                res.violation({'what': 'emitted program (%s) exceeds the reservation (%s)' % (d['n'], d['res']), 'input': [{'pats': [hx(q)]}], 'observed': a})
+            if outs[1][j] is not None and outs[1][j] != a:
+                res.violation({'what': 'plain and sanitized builds answer differently near the instruction limit', 'input': [{'pats': [hx(q)]}], 'plain': a, 'asan': outs[1][j]})
+            if outs[2][j] is not None and outs[2][j] != a:
+                res.disagree({'what': 'model and implementation differ near the instruction limit', 'input': [{'pats': [hx(q)]}], 'implementation': a, 'model': outs[2][j]})
